@@ -116,7 +116,18 @@ class Evaluator:
             return
         if isinstance(st, ast.AugAssign) and isinstance(st.target, ast.Name):
             cur = env[st.target.id]
-            env[st.target.id] = self.binop(st.op, cur, self.expr(st.value, env))
+            val = self.expr(st.value, env)
+            if isinstance(cur, list) and isinstance(st.op, ast.Add) and isinstance(val, (tuple, set, frozenset, str)):
+                cur.extend(val)                 # list += iterable extends in place (list + tuple would be a TypeError)
+                return
+            env[st.target.id] = self.binop(st.op, cur, val)
+            return
+        if isinstance(st, ast.AugAssign) and isinstance(st.target, ast.Subscript) and not isinstance(st.target.slice, ast.Slice):
+            base = self.expr(st.target.value, env)
+            key = self.expr(st.target.slice, env)
+            if not isinstance(base, (list, dict)):
+                raise Unsupported("item update on non-container")
+            base[key] = self.binop(st.op, base[key], self.expr(st.value, env))
             return
         if isinstance(st, ast.AugAssign) and isinstance(st.target, ast.Attribute):
             base = self.expr(st.target.value, env)
@@ -170,6 +181,24 @@ class Evaluator:
         if isinstance(st, ast.Try):
             self._try(st, env)
             return
+        if isinstance(st, ast.Delete):
+            for t in st.targets:
+                if isinstance(t, ast.Subscript):
+                    base = self.expr(t.value, env)
+                    if isinstance(base, Obj):
+                        raise Unsupported("del on object")
+                    if isinstance(t.slice, ast.Slice):
+                        lo = self.expr(t.slice.lower, env) if t.slice.lower else None
+                        hi = self.expr(t.slice.upper, env) if t.slice.upper else None
+                        sp = self.expr(t.slice.step, env) if t.slice.step else None
+                        del base[lo:hi:sp]
+                    else:
+                        del base[self.expr(t.slice, env)]
+                elif isinstance(t, ast.Name) and t.id in env:
+                    del env[t.id]
+                else:
+                    raise Unsupported("del target")
+            return
         if isinstance(st, ast.Break):
             raise _Break()
         if isinstance(st, ast.Continue):
@@ -179,6 +208,7 @@ class Evaluator:
     # names of the classes an exception raised while interpreting belongs to (for `except` matching);
     # repository classes: through the optional hook self.exc_bases(name) -> set of names
     exc_bases = None
+    max_call_depth = 8             # nesting of interpreted repository calls (a subclass may raise it)
 
     def _exc_names(self, e) -> set:
         if isinstance(e, Raised):
@@ -298,6 +328,14 @@ class Evaluator:
                 if m is not None and any(ast.unparse(d) == "property" for d in m.decorator_list):
                     return self.call_function(m, {"self": base})
             raise Unsupported(f"attribute {e.attr} on {base!r}")
+        if isinstance(e, (ast.Tuple, ast.List)) and any(isinstance(x, ast.Starred) for x in e.elts):
+            out = []
+            for x in e.elts:
+                if isinstance(x, ast.Starred):
+                    out.extend(list(self.iterate(self.expr(x.value, env))))
+                else:
+                    out.append(self.expr(x, env))
+            return tuple(out) if isinstance(e, ast.Tuple) else out
         if isinstance(e, ast.Tuple):
             return tuple(self.expr(x, env) for x in e.elts)
         if isinstance(e, ast.List):
@@ -346,6 +384,8 @@ class Evaluator:
             if isinstance(e.slice, ast.Slice):
                 lo = self.expr(e.slice.lower, env) if e.slice.lower else None
                 hi = self.expr(e.slice.upper, env) if e.slice.upper else None
+                if e.slice.step is not None:
+                    return base[lo:hi:self.expr(e.slice.step, env)]
                 return base[lo:hi]
             return base[self.expr(e.slice, env)]
         if isinstance(e, (ast.GeneratorExp, ast.ListComp)):
@@ -361,6 +401,16 @@ class Evaluator:
             return out
         if isinstance(e, ast.Call):
             return self.call(e, env)
+        if isinstance(e, ast.Lambda) and not (e.args.vararg or e.args.kwarg or e.args.kwonlyargs or e.args.defaults):
+            names = [a.arg for a in e.args.posonlyargs + e.args.args]
+
+            def closure(*vals, _names=names, _body=e.body, _env=env):
+                if len(vals) != len(_names):
+                    raise Unsupported("lambda arity")
+                env2 = dict(_env)
+                env2.update(zip(_names, vals))
+                return self.expr(_body, env2)
+            return closure
         if isinstance(e, ast.JoinedStr):
             return "".join(str(self.expr(v.value, env)) if isinstance(v, ast.FormattedValue) else str(v.value)
                            for v in e.values)
@@ -457,7 +507,7 @@ class Evaluator:
         if missing:
             raise Unsupported(f"missing arguments {missing}")
         self._call_depth += 1
-        if self._call_depth > 8:
+        if self._call_depth > self.max_call_depth:
             self._call_depth -= 1
             raise Unsupported("call depth")
         try:
@@ -621,6 +671,17 @@ class Evaluator:
                         i -= 1
                     out.insert(i, x)
                 return out
+            if n == "sorted" and len(args) == 1 and set(kwargs) <= {"key", "reverse"} and \
+                    (callable(kwargs.get("key")) or not any(isinstance(x, Obj) for x in self.iterate(args[0]))):
+                return sorted(self.iterate(args[0]), **kwargs)      # python's stable sort on the keys the stub yields
+            if n == "getattr" and len(args) in (2, 3) and isinstance(args[0], Obj) and isinstance(args[1], str):
+                if args[1] in args[0].__dict__:
+                    return args[0].__dict__[args[1]]
+                if len(args) == 3:
+                    return args[2]
+                raise AttributeError(args[1])
+            if n == "hasattr" and len(args) == 2 and isinstance(args[0], Obj) and isinstance(args[1], str):
+                return args[1] in args[0].__dict__
             if n in ("tuple", "list"):
                 return (tuple if n == "tuple" else list)(args[0])
             if n == "range" and args and all(isinstance(a, int) for a in args) and not kwargs:
@@ -644,12 +705,19 @@ class Evaluator:
             if isinstance(base, str) and f.attr in ("upper", "lower", "startswith", "endswith", "replace", "count",
                                                      "strip", "join"):
                 return getattr(base, f.attr)(*args)
-            if isinstance(base, Obj) and (base._cls, f.attr) in self.methods and self._call_depth < 6:
+            if isinstance(base, str) and f.attr in ("split", "rsplit", "splitlines", "lstrip", "rstrip", "isupper", "islower", "isdigit",
+                                                     "isalpha", "isalnum", "isspace", "isidentifier", "find", "rfind", "index",
+                                                     "partition", "rpartition", "expandtabs", "title", "capitalize", "casefold",
+                                                     "swapcase", "removeprefix", "removesuffix", "ljust", "rjust", "center", "zfill"):
+                return getattr(base, f.attr)(*args, **kwargs)
+            if isinstance(base, str) and f.attr == "format":
+                return base.format(*args, **kwargs)
+            if isinstance(base, Obj) and (base._cls, f.attr) in self.methods and self._call_depth < self.max_call_depth - 2:
                 return self.invoke(self.methods[(base._cls, f.attr)], [base] + args, kwargs)
             if isinstance(base, dict) and f.attr in ("setdefault", "get", "pop", "keys", "values", "items", "update"):
                 return getattr(base, f.attr)(*args, **kwargs)
             if isinstance(base, list) and f.attr in ("append", "extend", "sort", "index", "count", "insert", "remove", "pop"):
-                if f.attr == "sort" and any(isinstance(x, Obj) for x in base):
+                if f.attr == "sort" and not callable(kwargs.get("key")) and any(isinstance(x, Obj) for x in base):
                     base[:] = self.call_sorted(base)
                     return None
                 return getattr(base, f.attr)(*args, **kwargs)
